@@ -29,7 +29,7 @@ import vlib
 from props import engine_common as ec
 
 PID = "C06"
-LEAN_MODULES = ["QbiceVerif.Props.C06", "QbiceVerif.Props.C06Inc"]
+LEAN_MODULES = ["QbiceVerif.Props.C06", "QbiceVerif.Props.C06Inc", "QbiceVerif.Props.NonVacuity.C06"]
 DRIVER = "drv_engine"
 HARNESS_BIN = "engine"
 HARNESS_FEATURES = ""
